@@ -96,7 +96,13 @@ def matrix(tier="quick"):
     sids = sorted(d for d in os.listdir(SEEDED) if os.path.isdir(os.path.join(SEEDED, d)))
     res = {}
     with ThreadPoolExecutor(max_workers=3) as ex:
-        futs = {sid: ex.submit(run, sid.split("-")[0], sid, tier) for sid in sids}
+        def pid_of(sid):
+            try:
+                return json.load(open(os.path.join(SEEDED, sid, "meta.json"))).get("run_with_check") or sid.split("-")[0]
+            except Exception:
+                return sid.split("-")[0]
+
+        futs = {sid: ex.submit(run, pid_of(sid), sid, tier) for sid in sids}
         for sid, f in futs.items():
             caught, lines = f.result()
             res[sid] = caught
